@@ -123,8 +123,8 @@ Theorem C08_verdict_is_model_execution : forall cs,
   mismatches cs = [] <->
   Forall (fun k =>
     dirlog_ok (c_dirlog k) /\
-    (c_model k = true -> accepted (c_cfg k) (w_init (c_fids k) (c_dm k) (c_k0 k)) (c_steps k)) /\
-    oracles_ok (c_cfg k) (c_writers k) (c_counts k) (c_dm k) false false (w_init (c_fids k) (c_dm k) (c_k0 k)) [] 0%N (c_steps k)) cs.
+    (c_model k = true -> accepted (c_cfg k) (empties_of (c_steps k)) (w_init (c_fids k) (c_dm k) (c_k0 k)) (c_steps k)) /\
+    oracles_ok (c_cfg k) (c_writers k) (c_counts k) (c_dm k) (empties_of (c_steps k)) false false (w_init (c_fids k) (c_dm k) (c_k0 k)) [] 0%N (c_steps k)) cs.
 Proof. exact mismatches_nil_iff. Qed.
 Print Assumptions C08_verdict_is_model_execution.
 (* SIGKILL cases: only whole consecutive events ending at the last acknowledged one or the next, and the directory is the
@@ -138,9 +138,9 @@ Proof. exact fsize_mismatches_nil_iff. Qed.
 Print Assumptions C08_fsize_verdict_is_ack_present.
 (* hence the theorems above speak about the observed directory: after an accepted history the files the harness read are
    the model's acknowledged sequence minus a prefix *)
-Theorem C08_observed_reading_is_acked_suffix : forall c fids dm k0 (l : list (op * option sobs)) o ob,
+Theorem C08_observed_reading_is_acked_suffix : forall c E fids dm k0 (l : list (op * option sobs)) o ob,
   special c = false -> fault_free (map fst l ++ [o]) -> clock_ok k0 (map fst l ++ [o]) ->
-  accepted c (w_init fids dm k0) (map (fun p => (XOp (fst p), snd p)) l ++ [(XOp o, Some ob)]) ->
-  exists k, obs_reading ob = skipn k (acked (run c fids dm k0 (map fst l ++ [o]))).
+  accepted c E (w_init fids dm k0) (map (fun p => (XOp (fst p), snd p)) l ++ [(XOp o, Some ob)]) ->
+  exists k, obs_reading ob = vis E (skipn k (acked (run c fids dm k0 (map fst l ++ [o])))).
 Proof. exact observed_reading_is_acked_suffix. Qed.
 Print Assumptions C08_observed_reading_is_acked_suffix.
